@@ -21,6 +21,9 @@ func vkC06Judge(w *vkSrvWorld, cs vkSrvCase) (string, string) {
 	paths := []vkPath{vkPathDecoded, vkPathStrict, vkPathServeMsg}
 	if cs.Proto == "udp" {
 		paths = append(paths, vkPathInline)
+	} else {
+		// DNS over HTTPS: the real ServeHTTP in front of the same pipeline (a stream transport)
+		paths = append(paths, vkPathDoHPost, vkPathDoHGet)
 	}
 	decodable := new(dns.Msg).Unpack(raw) == nil
 	outcome := ""
@@ -32,7 +35,11 @@ func vkC06Judge(w *vkSrvWorld, cs vkSrvCase) (string, string) {
 			}
 		}
 		r := w.serve(p, cs.Proto, client, raw)
-		if v, o := vkC06Reply(cs, p, raw, decodable, r); v != "" {
+		jcs := cs
+		if p == vkPathDoHPost || p == vkPathDoHGet {
+			jcs.Proto = "doh" // no keepalive negotiation, no datagram size limit
+		}
+		if v, o := vkC06Reply(jcs, p, raw, decodable, r); v != "" {
 			return fmt.Sprintf("path %s: %s", p, v), "violation"
 		} else if outcome == "" {
 			outcome = o
@@ -46,7 +53,8 @@ func vkC06Reply(cs vkSrvCase, path vkPath, raw []byte, decodable bool, r vkResul
 	if len(r.replies) > 1 {
 		return fmt.Sprintf("%d replies to one query", len(r.replies)), ""
 	}
-	if p.QR {
+	doh := path == vkPathDoHPost || path == vkPathDoHGet
+	if p.QR && !doh { // (the "responses are never answered" clause names the datagram and stream listeners)
 		if len(r.replies) != 0 {
 			return "a packet that is itself a response (QR=1) was answered", ""
 		}
@@ -55,6 +63,8 @@ func vkC06Reply(cs vkSrvCase, path vkPath, raw []byte, decodable bool, r vkResul
 	if len(r.replies) == 0 {
 		// silence is only REQUIRED for responses; for everything else the statement demands specific rcodes
 		switch {
+		case path == vkPathDoHPost || path == vkPathDoHGet:
+			// an HTTP error status (no DNS reply) — the FORMERR/NOTIMP clause names the datagram and stream listeners
 		case p.Opcode != 0 && path != vkPathServeMsg:
 			return fmt.Sprintf("opcode %d query got no reply (NOTIMP required)", p.Opcode), ""
 		case path != vkPathServeMsg && len(raw) >= 12 && (!decodable || vkRealQD(raw) != 1):
